@@ -86,7 +86,11 @@ func c09Corpus(x *core.Ctx) []VFrame {
 		for _, base := range []gen.Vec{s.Empty(), s.Full()} {
 			s.Deviations(base, all, 1, func(slot, val int) bool {
 				sl := s.Slots[slot]
-				return sl.Big == nil || sl.N != 10 || !(val == 4 || val == 5 || val == 6 || val == 7)
+				if sl.Big == nil || sl.N != gen.NumStrLens {
+					return true
+				}
+				n := gen.StrLenAt(val)
+				return !(n == 127 || n == 128 || n == 255 || n == 256 || n == 16383 || n == 16384)
 			}, func(vec gen.Vec, nd int) bool {
 				p := s.Make(vec)
 				b, fields, err := spec.Encode(p, spec.Form{})
